@@ -9,7 +9,9 @@ Demo(ts, ops, threads, onlyinit) ==
                          "set_thisthread_cpubind", "get_thisthread_cpubind", "set_thread_cpubind", "get_thread_cpubind",
                          "get_thisproc_last_cpu_location", "get_proc_last_cpu_location", "get_thisthread_last_cpu_location",
                          "set_thisthread_membind", "get_thisthread_membind", "set_area_membind", "get_area_membind",
-                         "alloc_membind", "get_area_memlocation"} ELSE {},
+                         "alloc_membind", "get_area_memlocation",
+                         "firsttouch_membind", "bind_membind", "interleave_membind", "weighted_interleave_membind",
+                         "migrate_membind"} ELSE {},
    KAllowed |-> {1, 2, 3, 4, 9}, KMems |-> {1}, ThreadsC |-> threads, Ops |-> ops,
    CpuFam |-> SUBSET {1, 2, 7, 8}, NodeFam |-> SUBSET {1, 2, 7}, CpuFlagsC |-> 0..16, MemFlagsC |-> {0, 1, 2, 32, 33, 34, 36, 64},
    Pols |-> -1..6, Lens |-> {0, 1}, LoadComps |-> {"x86"}, OnlyInit |-> onlyinit, Twin |-> ~onlyinit]
